@@ -4,6 +4,7 @@ import (
 	"bytes"
 	"encoding/json"
 	"fmt"
+	"sort"
 	"testing"
 
 	"github.com/zmap/zlint/v3/lint"
@@ -13,6 +14,8 @@ import (
 	"verifharness/gen"
 	"verifharness/model"
 	"verifharness/stats"
+
+	dt "verifharness/dertree"
 )
 
 type rulePair struct {
@@ -98,7 +101,10 @@ func sameContent(fam string, run *engine.Run) bool {
 }
 
 func judgeC20(rec *stats.Rec, c c20Case) (string, string) {
-	run := engine.Execute(engine.Case{Kind: gen.Cert, DER: c.DER}, true)
+	return judgeC20Run(rec, c, engine.Execute(engine.Case{Kind: gen.Cert, DER: c.DER}, true))
+}
+
+func judgeC20Run(rec *stats.Rec, c c20Case, run *engine.Run) (string, string) {
 	if !run.Parsed || run.RS == nil {
 		rec.Class("parse_rejected")
 		return "", ""
@@ -181,6 +187,78 @@ func TestC20(t *testing.T) {
 				rec.Sample(map[string]interface{}{"family": fam, "base": sc.Base, "content": sc.Desc})
 			}
 		})
+	}
+	// pair sweep (enumerated): for every pair, corpus certificates on which both members run x every
+	// (leaf x type-aware edit) mutant - the edit alone, the edit with the subjectAltName value then copied
+	// into issuerAltName, and the edit with the subject then copied into the issuer - linted with all
+	// pair members; the pair relation is judged wherever both members ran on the same content.
+	{
+		homeObjects()
+		var members []string
+		seenM := map[string]bool{}
+		g := lint.GlobalRegistry().CertificateLints()
+		for _, p := range rulePairs {
+			for _, n := range []string{p.A, p.B} {
+				if !seenM[n] && g.ByName(n) != nil {
+					seenM[n] = true
+					members = append(members, n)
+				}
+			}
+		}
+		sort.Strings(members)
+		co := gen.LoadCorpus()
+		chosen := map[int]bool{}
+		var cover []sweepBase
+		K := stats.Scale(1, 5)
+		for _, p := range rulePairs {
+			// prefer objects on which a member reports (class 2), then both-pass objects
+			var cand []int
+			for cl := 2; cl >= 1; cl-- {
+				var idx []int
+				for i, ca := range homeClass[p.A] {
+					if cb, ok := homeClass[p.B][i]; ok && ca >= 1 && cb >= 1 && max(ca, cb) == cl {
+						idx = append(idx, i)
+					}
+				}
+				sort.Ints(idx)
+				cand = append(cand, idx...)
+			}
+			n := 0
+			for _, i := range cand {
+				if n >= K {
+					break
+				}
+				n++
+				if !chosen[i] {
+					chosen[i] = true
+					cover = append(cover, sweepBase{Obj: co.Certs[i], Lints: members})
+				}
+			}
+		}
+		extra := []sweepVariant{
+			{"san-into-ian", func(v *gen.CertView) bool {
+				san := gen.ExtInner(v.Ext(gen.OIDExtSAN...))
+				if san == nil || san.IsLeaf() {
+					return false
+				}
+				for v.Ext(gen.OIDExtIAN...) != nil {
+					v.RemoveExt(gen.OIDExtIAN...)
+				}
+				var gns []*dt.Node
+				for _, ch := range san.Children {
+					gns = append(gns, ch.Clone())
+				}
+				v.SetIAN(gns...)
+				return true
+			}},
+			{"subject-into-issuer", func(v *gen.CertView) bool { v.SetIssuer(v.Subject().Clone()); return true }},
+		}
+		gen.OIDFamilyMode = !stats.Thorough()
+		sweepBases(rec, cover, extra, true, "c20", func(ec engine.Case, run *engine.Run) (string, string) {
+			return judgeC20Run(rec, c20Case{DER: ec.DER, Base: ec.Base, Fam: "pair-sweep", Desc: ec.Ops}, run)
+		}, func(s string) { t.Fatalf("%s", s) })
+		gen.OIDFamilyMode = false
+		rec.Note("pairsweep", fmt.Sprintf("%d base certificates (K=%d per pair), %d pair members", len(cover), K, len(members)))
 	}
 	rapidRun(t, "generated", perShard(stats.Scale(4000, 100000)), func(rt *rapid.T) {
 		// any generated certificate: pairs whose members both run are judged too (DSA, etc.)
